@@ -8,12 +8,12 @@ export GOFLAGS=-mod=mod GOPROXY=off
 run() {
   if [ "$KIND" = standalone ]; then
     rm -rf /tmp/demo-$NAME; cp -r $OUT/demo /tmp/demo-$NAME
-    sed -i "s#=> /tmp/mut-[A-Za-z0-9]*#=> $WT#" /tmp/demo-$NAME/go.mod
+    grep -rlE "/tmp/mut-[A-Za-z0-9]+" /tmp/demo-$NAME | xargs -r sed -i -E "s#/tmp/mut-[A-Za-z0-9]+-out/demo#/tmp/demo-$NAME#g; s#/tmp/mut-[A-Za-z0-9]+#$WT#g"
     cp $WT/go.sum /tmp/demo-$NAME/go.sum
-    (cd /tmp/demo-$NAME && timeout 900 go run . 2>&1 | tail -3; echo "exit=$?")
+    (cd /tmp/demo-$NAME && timeout 1500 go run . 2>&1 | tail -3; echo "exit=$?")
   else
     cp $OUT/demo/*_test.go $WT/$PKG/
-    (cd $WT && timeout 900 go test -vet=off -count=1 -run "$RX" ./$PKG/ 2>&1 | tail -3)
+    (cd $WT && timeout 1500 go test $GOTESTFLAGS -vet=off -count=1 -run "$RX" ./$PKG/ 2>&1 | tail -3)
   fi
 }
 W=$(run | tr '\n' ' ' | cut -c1-400)
